@@ -337,3 +337,20 @@ Proof.
 Qed.
 
 End Ops.
+
+(* ---------- what is NOT crash safe: the advance of the ratchet ---------- *)
+(* Window 1, sender 1 registered at counter 1.  A stop right after the first write of the open of
+   message 2 (the key stored under the message identifier): after restart the message opens again
+   by its identifier, nothing more is written, and message 3 — which opens in the run without the
+   stop — never opens. *)
+Lemma advance_lost_after_crash :
+  let W := 1%nat in
+  let s0 := apply_muts empty_store (op_muts W empty_store (RReg 1 1)) in
+  let ms := op_muts W s0 (ROpen 1 2 100) in
+  let crash := apply_muts s0 (firstn 1 ms) in
+  let s1 := apply_muts crash (op_muts W crash (ROpen 1 2 100)) in
+  length ms = 4%nat /\
+  op_out W crash (ROpen 1 2 100) = OOk 100 /\ op_muts W crash (ROpen 1 2 100) = [] /\
+  op_out W s1 (ROpen 1 3 101) = OFail /\
+  op_out W (apply_muts s0 ms) (ROpen 1 3 101) = OOk 101.
+Proof. vm_compute. repeat split. Qed.
